@@ -55,6 +55,8 @@ VARIANTS = [
     # ---------------------------------------------------------------- C04
     ('c04-ge-id-skip', 'C04', X12, "if self.loops[-1][1] != seg_data.get_value('GE02'):", "if self.loops[-1][1] != seg_data.get_value('GE02') and seg_data.get_value('GE02'):", B, 'C04.R6'),
     ('c04-gs-count-reset', 'C04', X12, "            self.gs_count = 0\n", "            self.gs_count = 1\n", B, 'C04.R7'),
+    ('c04-cleanup-level', 'C04', X12, "                    err_str += '(GE={}) missing'.format(id1)\n                    self._gs_error('3', err_str)", "                    err_str += '(GE={}) missing'.format(id1)\n                    self._st_error('3', err_str)", B, 'C04.R9'),
+    ('c04-hl-parent-pop', 'C04', X12, "while self.hl_stack and hl_parent != self.hl_stack[-1]:", "while len(self.hl_stack) > 1 and hl_parent != self.hl_stack[-1]:", B, 'C04.R7'),
     ('c04-drop-st-ids-reset', 'C04', X12, "            self.st_ids = []\n", "", B, 'C04.R1'),
     ('c04-seg-count-reset', 'C04', X12, "self.seg_count = 1", "self.seg_count = 0", B, 'C04.R1'),
     ('c04-se-compare', 'C04', X12, "!= self.seg_count + 1:", "!= self.seg_count:", B, 'C04.R1'),
